@@ -43,6 +43,16 @@ class EngineBase:
     def assumptions(self):
         return []
 
+    def after_mutation(self):
+        """Called by the sensitivity self-test after the code under test was re-executed in memory."""
+        pass
+
+    def is_known(self, v):
+        from . import findings
+        if not hasattr(self, '_known'):
+            self._known = findings.load()
+        return findings.match(self._known, v['property'], v.get('signature', {})) is not None
+
     # -- generic --
     def job(self, kind, payload):
         if kind == 'seed':
